@@ -8,7 +8,8 @@ From Coq Require Import List Arith Bool Permutation.
 Import ListNotations.
 Require Import Fggs.Model.Conj Fggs.Model.TreeDec Fggs.Proofs.TreeDec_tdok Fggs.Model.Factorize
                Fggs.Proofs.Fz_fresh Fggs.Proofs.Fz_rooted Fggs.Proofs.Fz_struct Fggs.Proofs.Fz_main
-               Fggs.Proofs.Fz_bridge Fggs.Proofs.Fz_final Fggs.Proofs.Fz_inline Fggs.Proofs.Fz_examples.
+               Fggs.Proofs.Fz_bridge Fggs.Proofs.Fz_final Fggs.Proofs.Fz_inline Fggs.Proofs.Fz_labels
+               Fggs.Proofs.Fz_examples.
 
 (** * C05_edges_once
     For EVERY rule, EVERY valid tree decomposition of its primal graph (whatever method produced
@@ -91,43 +92,54 @@ Theorem C05_fresh_head :
 Proof. exact visit_head_fresh. Qed.
 Print Assumptions C05_fresh_head.
 
-(** F22: called directly, factorize_rule protects only the NONTERMINAL labels of the rule: a
-    fresh name can be the name of one of its terminal labels (ValueError, or a silent clash) *)
-Theorem C05_fresh_refuted :
-  exists r t ords, td_ok (primal r) (td_of_ftd t) = true /\ factorize_rule_model r [] t ords = Err ValueErr.
-Proof. exact fresh_refuted. Qed.
-Print Assumptions C05_fresh_refuted.
-Theorem C05_fresh_refuted_silent :
-  exists r t ords rs ls, td_ok (primal r) (td_of_ftd t) = true /\ factorize_rule_model r [] t ords = Ok (rs, ls)
-    /\ exists c e, In c rs /\ In e (fr_edges r) /\ el_name (fr_lhs c) = el_name (fe_lab e).
-Proof. exact fresh_refuted_silent. Qed.
-Print Assumptions C05_fresh_refuted_silent.
-(** positive, under the guard that the names of the rule's terminal labels are in [labels]
-    (always so inside factorize_hrg): no collision with any label of the rule or of [labels] *)
+(** the fresh names ([names_ok] is what [C05_edges_once] establishes for them) differ from the
+    name of the rule's left-hand side, of EVERY edge label of the rule (terminal or not; as of
+    /repo 211579c) and of every label of the [labels] argument *)
 Theorem C05_fresh :
   forall r ords nm labels idx,
-    terms_covered r labels -> names_ok r ords nm (init_labels r labels) idx ->
+    names_ok r ords nm (init_labels r labels) idx ->
     forall j, In j idx ->
       ~ In (el_name (nm j)) (map el_name labels)
       /\ el_name (nm j) <> el_name (fr_lhs r)
       /\ forall e, In e (fr_edges r) -> el_name (nm j) <> el_name (fe_lab e).
 Proof. exact fresh_names_ok. Qed.
 Print Assumptions C05_fresh.
+(** F22, the code before 211579c ([factorize_rule_old_model]: only the NONTERMINAL labels of the
+    rule were protected): a fresh name could be the name of a terminal label of the rule --
+    ValueError, or a silent clash *)
+Theorem C05_fresh_old_refuted :
+  exists r t ords, td_ok (primal r) (td_of_ftd t) = true /\ factorize_rule_old_model r [] t ords = Err ValueErr.
+Proof. exact fresh_old_refuted. Qed.
+Print Assumptions C05_fresh_old_refuted.
+Theorem C05_fresh_old_refuted_silent :
+  exists r t ords rs ls, td_ok (primal r) (td_of_ftd t) = true /\ factorize_rule_old_model r [] t ords = Ok (rs, ls)
+    /\ exists c e, In c rs /\ In e (fr_edges r) /\ el_name (fr_lhs c) = el_name (fe_lab e).
+Proof. exact fresh_old_refuted_silent. Qed.
+Print Assumptions C05_fresh_old_refuted_silent.
 
-(** * C05_method_honoured: refuted for factorize_fgg as coded (F7) *)
-Theorem C05_method_honoured_refuted :
-  exists g orc m,
-    (forall k, map (fun ro => Some (fst ro)) (orc k)
-               = map (fun c => option_map canon_ftd (tree_decomposition k (primal c))) (fh_all_rules (ff_hrg g)))
-    /\ ~ method_honoured m g orc.
-Proof. exact method_honoured_refuted. Qed.
-Print Assumptions C05_method_honoured_refuted.
-Theorem C05_method_honoured_min_fill : forall g orc, method_honoured 0 g orc.
-Proof. exact method_honoured_min_fill. Qed.
-Print Assumptions C05_method_honoured_min_fill.
+(** * C05_method_honoured
+    [orc k] = the decompositions tree_decomposition(., method k) returns for the rules.
+    factorize_rule receives the decomposition of the requested method as its argument;
+    factorize_hrg hands [orc m] to every factorize_rule call; factorize_fgg (as of /repo
+    207a206) passes [m] on to factorize_hrg. *)
 Theorem C05_method_honoured_hrg : forall m g orc, factorize_hrg_model m g orc = factorize_hrg_with g (orc m).
 Proof. exact hrg_method_honoured. Qed.
 Print Assumptions C05_method_honoured_hrg.
+Theorem C05_method_honoured : forall m g orc, method_honoured factorize_fgg_model m g orc.
+Proof. exact fgg_method_honoured. Qed.
+Print Assumptions C05_method_honoured.
+(** F7, the code before 207a206 ([factorize_fgg_old_model]: factorize_hrg(g) without method):
+    refuted, and honoured only for m = 0 (min_fill) *)
+Theorem C05_method_honoured_old_refuted :
+  exists g orc m,
+    (forall k, map (fun ro => Some (fst ro)) (orc k)
+               = map (fun c => option_map canon_ftd (tree_decomposition k (primal c))) (fh_all_rules (ff_hrg g)))
+    /\ ~ method_honoured factorize_fgg_old_model m g orc.
+Proof. exact fgg_old_method_honoured_refuted. Qed.
+Print Assumptions C05_method_honoured_old_refuted.
+Theorem C05_method_honoured_old_min_fill : forall g orc, method_honoured factorize_fgg_old_model 0 g orc.
+Proof. exact fgg_old_method_honoured_min_fill. Qed.
+Print Assumptions C05_method_honoured_old_min_fill.
 
 (** * converse, for detection *)
 Theorem C05_invalid_td_loses_edge_example :
@@ -138,11 +150,24 @@ Theorem C05_invalid_td_loses_edge_example :
 Proof. exact invalid_td_loses_edge_example. Qed.
 Print Assumptions C05_invalid_td_loses_edge_example.
 
-(** * F20: factorize_fgg keeps the factors but rebuilds the label tables from the rules *)
-Theorem C05_labels_preserved_refuted :
-  exists g orc f, factors_bound g /\ factorize_fgg_model 0 g orc = Ok f /\ ~ factors_bound f.
-Proof. exact labels_preserved_refuted. Qed.
-Print Assumptions C05_labels_preserved_refuted.
+(** * same start symbol, same labels, factors and domains
+    ([keeps]: the label tables of the input are included in those of the result and the start
+    symbol is the same; as of /repo 833be06 and 450bcaa) *)
+Theorem C05_hrg_keeps_labels :
+  forall g orc g', factorize_hrg_with g orc = Ok g' -> keeps g g'.
+Proof. exact factorize_hrg_keeps. Qed.
+Print Assumptions C05_hrg_keeps_labels.
+Theorem C05_fgg_keeps_labels_factors_domains :
+  forall m g orc f, factorize_fgg_model m g orc = Ok f ->
+    keeps (ff_hrg g) (ff_hrg f) /\ ff_factors f = ff_factors g /\ ff_domains f = ff_domains g
+    /\ (factors_bound g -> factors_bound f) /\ (domains_bound g -> domains_bound f).
+Proof. exact factorize_fgg_keeps. Qed.
+Print Assumptions C05_fgg_keeps_labels_factors_domains.
+(** F20, the code before the repairs ([factorize_hrg_old_with]: tables rebuilt from the rules) *)
+Theorem C05_labels_old_refuted :
+  exists g orc h, factorize_hrg_old_with g orc = Ok h /\ exists l, In l (fh_elabels g) /\ ~ In l (fh_elabels h).
+Proof. exact hrg_old_labels_refuted. Qed.
+Print Assumptions C05_labels_old_refuted.
 
 (** * C05_inline
     Under the same hypotheses, replacing (recursively) every edge whose label is the left-hand
@@ -239,3 +264,36 @@ Example C05_unfolding_example :
   unfolding ex_G 0 ex_rr [(2, [0; 1])] 1 [1] [] ex_c
   /\ ranked ex_G (fun l => match l with 0 => 2 | 1 => 1 | _ => 0 end).
 Proof. exact unfolding_ranked_example. Qed.
+
+Require Import Fggs.Proofs.Fz_treeval.
+(** * C05_sum_product, rule level (every commutative semiring, recursive grammars included)
+    [tr lab] is [to_sp_rule] with an arbitrary numbering [lab] of the edge labels
+    ([to_sp_rule tbl = tr (lab_idx tbl)]).  For every rule whose node ids are its positions (as the
+    harness numbers them), every valid decomposition and every order: in ANY environment [e'] that
+    gives every fresh nonterminal the value of its one rule, the new rule for the original
+    left-hand side has exactly the value of the original rule, at every external assignment that
+    is the restriction of an in-range assignment of the nodes.  (Junction-tree argument: every
+    node is summed in the topmost bag containing it, [Fz_wv.v]; every edge multiplied in where it
+    is placed, [C05_edges_once]; sums over disjoint variable sets commute with products,
+    [Fz_ao.v].)
+    STILL OPEN for the grammar-level statement "[Zk] of [to_sp_grammar] before = after on every
+    original nonterminal": assembling this rule-level theorem over all rules of a grammar (the
+    fresh nonterminals have exactly one rule each in the whole grammar, the label numbering of
+    the factorised grammar extends the original one) and, for recursive grammars, the passage
+    from "same solutions" to the limit of the Kleene iterates.  Covered per case by
+    [fz_sp_check]. *)
+Theorem C05_sum_product_rule :
+  forall (R : Type) (o : sr_ops R), sr_ring o ->
+  forall r t ords labels rs ls G lab (e' : env (R:=R)),
+    Fz_final.wf_rule r -> fr_ids r = seq 0 (length (fr_nodes r)) ->
+    ftd_wfb t = true -> valid_td (primal r) (td_of_ftd t) ->
+    factorize_rule_model r labels t ords = Ok (rs, ls) ->
+    exists front last, rs = front ++ [last] /\
+      ((forall c, In c front -> forall zeta, e' (lab (fr_lhs c)) zeta = rule_val o G e' (tr lab c) zeta) ->
+       forall a, In a (all_assts (map (dom G) (map snd (fr_nodes r)))) ->
+         rule_val o G e' (tr lab last) (sel a (fr_ext r)) = rule_val o G e' (tr lab r) (sel a (fr_ext r))).
+Proof. exact @sum_product_rule. Qed.
+Print Assumptions C05_sum_product_rule.
+Theorem C05_to_sp_rule_is_tr : forall tbl c, to_sp_rule tbl c = tr (lab_idx tbl) c.
+Proof. exact to_sp_rule_tr. Qed.
+Print Assumptions C05_to_sp_rule_is_tr.
